@@ -32,7 +32,7 @@ META = dict(
     rule="one evaluation = one symbolic path through SynRule construction, VF2 matching, de-duplication and gluing; "
          "non-trivial = at least one reaction is proposed",
 )
-WALL = dict(quick=170, thorough=1500)
+WALL = dict(quick=240, thorough=1500)
 MIN_PATHS = dict(quick=300, thorough=3000)
 
 
